@@ -1594,3 +1594,101 @@ def replay(ctx, rep):   # noqa: F811
         pye()
         return common.scenario_replay(ctx, rep, {'chain': chain_scenarios})
     return _replay_main6(ctx, rep)
+
+
+# ---------------------------------------------------------------------------
+# cross-resource targets that are FALSY (static classes whose instances define __bool__ / are empty containers):
+# the reference is followed all the same and reaches the very object (oracle on the implementation only)
+
+def falsy_target_scenarios(ctx, out):
+    import tempfile as _tf
+    from harness import kstatic
+    from pyecore.resources import ResourceSet, URI
+    from pyecore.resources.json import JsonResource
+    rng = common.rng_for(ctx.seed, 'C14:falsy')
+    n = 10 if ctx.tier != 'thorough' else 150
+    cnt = 0
+    mm = {'classes': [{'name': 'FNode', 'supers': [], 'features': [
+        {'name': 'name', 'kind': 'attr', 'type': 'EString', 'many': False, 'ordered': True, 'unique': True, 'containment': False, 'opposite': None},
+        {'name': 'kids', 'kind': 'ref', 'type': 'FNode', 'many': True, 'ordered': True, 'unique': True, 'containment': True, 'opposite': None},
+        {'name': 'one', 'kind': 'ref', 'type': 'FNode', 'many': False, 'ordered': True, 'unique': True, 'containment': False, 'opposite': None},
+        {'name': 'many', 'kind': 'ref', 'type': 'FNode', 'many': True, 'ordered': True, 'unique': True, 'containment': False, 'opposite': None}]}],
+        'enums': []}
+    for it in range(n):
+        fmt = 'xmi' if it % 2 == 0 else 'json'
+        mod, classes, nsuri = kstatic.render(mm, rng.choice(['meta', 'decorator']), falsy=True)
+        N = classes['FNode']
+
+        def new_rset():
+            rs = ResourceSet()
+            rs.metamodel_registry[nsuri] = mod
+            if fmt == 'json':
+                rs.resource_factory['json'] = lambda uri: JsonResource(uri)
+            return rs
+        hist = {'format': fmt}
+        case = {'scenario': 'falsy', 'seed': ctx.seed, 'tier': ctx.tier, 'history': hist}
+        sig = {'property': 'C14', 'clause': None, 'scenario': 'falsy', 'format': fmt}
+        try:
+            with _tf.TemporaryDirectory() as tmp:
+                pa, pb = os.path.join(tmp, 'd1', 'a.' + fmt), os.path.join(tmp, 'd2', 'b.' + fmt)
+                os.makedirs(os.path.dirname(pa))
+                os.makedirs(os.path.dirname(pb))
+                rs = new_rset()
+                a, b = N(), N()
+                a.name, b.name = 'a', 'b'
+                for i in range(2):
+                    k = N()
+                    k.name = f'b{i}'
+                    b.kids.append(k)
+                ra, rb = rs.create_resource(URI(pa)), rs.create_resource(URI(pb))
+                ra.append(a)
+                rb.append(b)
+                tgt = rng.choice([b, b.kids[0], b.kids[1]])
+                a.one = tgt
+                a.many.extend([b.kids[1], b])
+                hist['target'] = tgt.name
+                ra.save()
+                rb.save()
+                rs2 = new_rset()
+                la = rs2.get_resource(URI(pa)).contents[0]
+                cnt += 1
+                how = rng.choice(['read', 'write', 'eq'])
+                hist['touch'] = how
+                if how == 'read':
+                    got = la.one.name
+                elif how == 'write':
+                    la.one.name = 'changed'
+                    got = hist['target']
+                else:
+                    got = hist['target'] if la.one == la.one else '?'
+                lb = rs2.get_resource(URI(pb)).contents[0]
+                direct = {x.name: x for x in [lb] + list(lb.kids)}
+                want = direct['changed'] if how == 'write' else direct[hist['target']]
+                if got != hist['target'] or la.one.force_resolve() is not want or [x.name for x in la.many][1] not in ('b', 'changed'):
+                    sig['clause'] = 'falsy-target-not-reached'
+                    out.fail(sig, f'a.one was saved pointing to the (falsy) {hist["target"]}; after reload ({how}) it reaches {got!r} / '
+                                  f'{getattr(la.one.force_resolve(), "name", None)!r}', case)
+        except Exception as e:  # noqa
+            sig['clause'] = 'falsy-target-raised'
+            out.fail(sig, f'{type(e).__name__}: {e}', case)
+        finally:
+            kstatic.forget(mod)
+    out.coverage['falsy_cross_resource_targets_followed'] = cnt
+
+
+_run_main7 = run
+
+
+def run(ctx, out):   # noqa: F811
+    _run_main7(ctx, out)
+    falsy_target_scenarios(ctx, out)
+
+
+_replay_main7 = replay
+
+
+def replay(ctx, rep):   # noqa: F811
+    if rep.get('case', {}).get('scenario') == 'falsy':
+        pye()
+        return common.scenario_replay(ctx, rep, {'falsy': falsy_target_scenarios})
+    return _replay_main7(ctx, rep)
